@@ -13,7 +13,7 @@ Expression forms (tuples):
 """
 from .flow import Pts, path_str
 
-LEN_FNS = ("core::slice::<impl [T]>::len", "core::str::<impl str>::len", "std::vec::Vec::<T, A>::len", "alloc::vec::Vec::<T, A>::len")
+LEN_FNS = ("std::slice::<impl [T]>::len", "std::str::<impl str>::len", "std::vec::Vec::<T, A>::len", "std::vec::Vec::<T, A>::len")
 
 
 def fold(e):
